@@ -40,13 +40,13 @@ def run_c07(prop, tier):
     # the same timer clauses under partial I/O: the Keep Alive of 16 s is accepted k bytes at a time and is still unfinished when
     # discovery completes at 17 s (the raced keep_alive() future is dropped in mid-write); routing then outlasts the next deadline
     for pol in ("never", "wrong", "late", "prompt", "slow"):
-        for k in (1, 3, 9):
+        for k in (0, 1, 3, 9):
             for lat in ([16, 40, 2], [16, 2, 40]):
                 recs.append({"sched": {"auth": 0, "ackAt": 1, "infoAt": 1, "lat": lat, "policy": pol}, "wstall": {"at": 15, "k": k, "release": 19}})
     # ... the transport reopens only after routing has completed and the final packets were queued behind the half-written Keep Alive
     # (discovery done at 17 s, everything at 19 s, transport stalled from the Keep Alive of 16 s until 24 s): the Transfer must still arrive whole
     for pol in ("prompt", "never"):
-        for k in (1, 3, 9):
+        for k in (0, 1, 3, 9):
             for lat in ([16, 1, 1], [4, 12, 2]):
                 recs.append({"sched": {"auth": 0, "ackAt": 1, "infoAt": 1, "lat": lat, "policy": pol}, "wstall": {"at": 15, "k": k, "release": 24}})
     # ... a client that sends its settings once more while it waits (before / after the first Keep Alive, back to back with the first ones)
